@@ -885,7 +885,10 @@ class C17(Check):
             return f"use #{i}: impl={got[i] if i < len(got) else None} model={want[i] if i < len(want) else None}"
         return None
 
+    _last = (None, None)
+
     def spec(self, case, io, mo):
+        self._last = (case, mo)     # `classify` is called right after `spec` for the same case
         if "outs" not in io:
             return f"adapter returned no outcomes: {io}"
         if io.get("setup"):
@@ -911,6 +914,9 @@ class C17(Check):
             return None
         # function-local sibling named through a string: never visible to the parser's namespace
         if case.get("scope") == "function":
+            # ... and only while the code still does what the model of that mechanism predicts
+            if self._last[0] is case and self.compare(case, io, self._last[1]) is not None:
+                return None
             us = uses(case)
             bad = [(op, got) for (i, op, d), got in zip(us, io["outs"])
                    if closed(case, op, d) and norm_impl(got) != ref_use(case, d, op)]
